@@ -24,8 +24,10 @@ Print Assumptions C02_metavariable_occurrence.
 
 (* kinds: an identifier metavariable stands for a *ast.Ident, an expression metavariable
    for a value whose type implements ast.Expr (table generated from go/ast) *)
-Theorem C02_kind_ident : forall t, kind_ok KIdent t = true -> dyn_type t = T_P_ast_Ident.
-Proof. intros t H. apply N.eqb_eq. exact H. Qed.
+Theorem C02_kind_ident : forall t, kind_ok KIdent t = true -> exists v, t = Ptr T_P_ast_Ident v.
+Proof.
+  intros t H. destruct t as [| | | |tp v| |]; try discriminate H. apply N.eqb_eq in H. subst tp. exists v. reflexivity.
+Qed.
 Print Assumptions C02_kind_ident.
 
 Theorem C02_kind_expr : forall t, kind_ok KExpr t = true -> implements (dyn_type t) T_ast_Expr = true.
